@@ -20,6 +20,7 @@ import (
 	spb "google.golang.org/genproto/googleapis/rpc/status"
 	"google.golang.org/grpc"
 	"google.golang.org/grpc/codes"
+	"google.golang.org/grpc/metadata"
 	"google.golang.org/grpc/status"
 	"google.golang.org/protobuf/encoding/protojson"
 	"google.golang.org/protobuf/proto"
@@ -190,7 +191,11 @@ func isPrintable(s string) bool {
 
 func c05API(c *Ctx, msgs []string) {
 	var script c05Script
+	var headerFirst bool
 	unary := func(ctx context.Context, in *dynamicpb.Message) (proto.Message, error) {
+		if headerFirst {
+			grpc.SendHeader(ctx, metadata.Pairs("x-c05-early", "1")) //nolint
+		}
 		return nil, script.err()
 	}
 	var fxp *Fixture
@@ -277,6 +282,33 @@ func c05API(c *Ctx, msgs []string) {
 			}
 			if derr != nil || !proto.Equal(got, want) || !strings.HasPrefix(rec.Header().Get("Content-Type"), accept) {
 				c.SpecFail("api-http", accept+" "+in, fmt.Sprintf("%v %q ct=%s", derr, rec.Body.String(), rec.Header().Get("Content-Type")), prototextS(want), "C05/http/status-body", "google.rpc.Status body differs from the handler's status")
+			}
+		}
+
+		// (a') the handler sent its headers before failing: the status still reaches the client
+		if sc.code >= 1 && sc.code <= 16 {
+			headerFirst = true
+			r := httptest.NewRequest("GET", "/c05/fail", nil)
+			r.Header.Set("Accept", "application/json")
+			rec, pn := fx.Serve(r)
+			headerFirst = false
+			c.Eval("api-http-header-first", in, true)
+			got := &spb.Status{}
+			if pn != nil || protojson.Unmarshal(rec.Body.Bytes(), got) != nil || !proto.Equal(got, want) {
+				c.SpecFail("api-http-header-first", in, fmt.Sprintf("%d %q panic=%v", rec.Code, truncS(rec.Body.String(), 160), pn), prototextS(want), "C05/http/status-lost-after-sendheader", "a handler that sends its headers and then fails: the client does not get the status")
+			}
+		}
+		// (a'') an HTTP server stream that fails after replies: the status follows the replies
+		if sc.replies > 0 && sc.code >= 1 && sc.code <= 16 {
+			r := httptest.NewRequest("GET", "/c05/stream", nil)
+			r.Header.Set("Accept", "application/json")
+			rec, pn := fx.Serve(r)
+			c.Eval("api-http-after-replies", in, true)
+			objs := splitJSONObjects(rec.Body.Bytes())
+			got := &spb.Status{}
+			ok := pn == nil && len(objs) == sc.replies+1 && protojson.Unmarshal(objs[len(objs)-1], got) == nil && proto.Equal(got, want)
+			if !ok {
+				c.SpecFail("api-http-after-replies", in, fmt.Sprintf("%d %d objects: %q panic=%v", rec.Code, len(objs), truncS(rec.Body.String(), 200), pn), fmt.Sprintf("%d replies then %s", sc.replies, prototextS(want)), "C05/http/status-lost-after-replies", "an HTTP stream that fails after some replies: the status does not follow the replies")
 			}
 		}
 
